@@ -197,12 +197,14 @@ impl DiskCache {
 
                 let key_dir_name = key_dir.file_name();
 
-                // asserts that the prefix dir name is actually the prefix of this key dir
-                debug_assert_eq!(
-                    key_dir_name.as_encoded_bytes()[..PREFIX_DIR_NAME_LEN].to_ascii_uppercase(),
-                    key_prefix_dir_name.as_encoded_bytes().to_ascii_uppercase(),
-                    "{key_dir_name:?}",
-                );
+                // the prefix dir name must be the prefix of this key dir, skip foreign directories
+                let key_dir_name_bytes = key_dir_name.as_encoded_bytes();
+                if key_dir_name_bytes.len() < PREFIX_DIR_NAME_LEN
+                    || !key_dir_name_bytes[..PREFIX_DIR_NAME_LEN].eq_ignore_ascii_case(key_prefix_dir_name.as_encoded_bytes())
+                {
+                    debug!("key dir {key_dir_name:?} is not under its prefix dir");
+                    continue;
+                }
 
                 let key = match try_parse_key(key_dir_name.as_encoded_bytes()) {
                     Ok(key) => key,
@@ -810,6 +812,9 @@ fn check_remove_dir(dir_path: impl AsRef<Path>) -> Result<(), ChunkCacheError> {
 /// expects only the key portion of the file path, with the prefix not present.
 fn try_parse_key(file_name: &[u8]) -> Result<Key, ChunkCacheError> {
     let buf = BASE64_ENGINE.decode(file_name)?;
+    if buf.len() < size_of::<MerkleHash>() {
+        return Err(ChunkCacheError::parse("decoded buf is too short for a cache key directory name"));
+    }
     let hash = MerkleHash::from_slice(&buf[..size_of::<MerkleHash>()])?;
     let prefix = String::from(std::str::from_utf8(&buf[size_of::<MerkleHash>()..])?);
     Ok(Key { prefix, hash })
